@@ -41,7 +41,7 @@ def run_case(case, keep=False):
             p = os.path.join(tmp, file)
             with open(p) as fh:
                 s = fh.read()
-            if s.count(old) != 1:
+            if s.count(old) != case.get('count', 1):
                 return 'BROKEN-CASE', 'pattern occurs %d times in %s' % (s.count(old), file)
             with open(p, 'w') as fh:
                 fh.write(s.replace(old, new))
@@ -60,7 +60,9 @@ def run_case(case, keep=False):
             return 'FAIL', 'analysis broken on mutant:\n' + out[-800:]
         if p.returncode != 1:
             return 'FAIL', 'mutant not detected (rc=%d)' % p.returncode
-        hits = [l for l in out.splitlines() if l.strip().startswith('FAILED ' + case['expect'] + ' ')]
+        exp = case['expect']
+        hits = [l for l in out.splitlines() if l.strip().startswith(
+            'FAILED ' + (exp[:-1] if exp.endswith('*') else exp + ' '))]
         if case.get('where'):
             hits = [l for l in hits if case['where'] in l]
         if not hits:
@@ -75,11 +77,14 @@ def main():
     ap = argparse.ArgumentParser()
     ap.add_argument('-k', default='')
     ap.add_argument('--keep', action='store_true')
+    ap.add_argument('-j', type=int, default=8)
     args = ap.parse_args()
     cases = [c for c in load_cases() if args.k in c['id'] or args.k == c['prop']]
     bad = 0
-    for c in cases:
-        st, msg = run_case(c, args.keep)
+    from concurrent.futures import ThreadPoolExecutor
+    with ThreadPoolExecutor(max_workers=max(1, args.j)) as ex:
+        results = list(ex.map(lambda c: run_case(c, args.keep), cases))
+    for c, (st, msg) in zip(cases, results):
         print('%-6s %-34s %s %s' % (st, c['id'], c['prop'], msg if st != 'ok' else '- ' + msg))
         if st != 'ok':
             bad += 1
